@@ -247,5 +247,6 @@ LeadInOk(t, r, s, base) == \/ \E m \in SeqSet(Members(t)) : base * R(m).effN <= 
                            \/ (Fwd(t) /\ s = ts[t].bslot /\ base <= ts[t].off * R(r).effN)
 P06Of(t, st, en, effort) == st <= en /\ (effort > 0 => st < en)
 \* tight: the reported start lies in the earliest booked slot, the end in (the closure of) the latest one
-P06Tight(t, st, en, lo, hi) == st \div G = lo /\ (en - 1) \div G = hi
+\* (reported times are whole seconds, D12: a residue of less than a second in the first / last slot may round onto the slot edge)
+P06Tight(t, st, en, lo, hi) == (st \div G = lo \/ (st - 1) \div G = lo) /\ ((en - 1) \div G = hi \/ en \div G = hi)
 =======================================================================================
